@@ -224,3 +224,33 @@ Theorem C02_monitor_accepts_strict_model : forall gs, forallb genuine_ok gs = tr
   judge_seal m gs pk p (model_unmarshal m gs pk (presented gs p)) store = 0.
 Proof. exact judge_model_strict. Qed.
 Print Assumptions C02_monitor_accepts_strict_model.
+
+(* ---------------------------------------------------------------------------------------------- *)
+(* the cookie path: CookieStore.LoadSession behind net/http's Cookie header parsing                 *)
+
+(* The value handed to Unmarshal is, byte for byte, a contiguous piece of one Cookie header line and
+   consists of valid cookie-value bytes: nothing is percent-decoded, case-folded or joined. *)
+Theorem C02_cookie_value_verbatim : forall name lines cv,
+  cookie_lookup name lines = Some cv ->
+  (exists line, In line lines /\ sub cv line) /\ forallb valid_cookie_value_byte cv = true.
+Proof. exact cookie_lookup_sub. Qed.
+Print Assumptions C02_cookie_value_verbatim.
+
+(* LoadSession returns a session only if a Cookie line literally contains a string sealed under the
+   store's key, and then returns what was sealed (strict mode = the code after fix 1bef7bb). *)
+Theorem C02_load_session_canonical : forall (K V : Type) (A : ideal_aead K) (codec : V -> str) (uncodec : str -> option V),
+  (forall v, uncodec (codec v) = Some v) ->
+  forall m k name lines v, m_strict m = true -> m_nocrlf m = true ->
+  load_session (open A) uncodec m k name lines = LSession v ->
+  exists n p line, length n = 16%nat /\ In line lines /\
+    sub (b64url_encode (encrypt (seal A) k n p)) line /\ uncodec p = Some v /\
+    (forall v', p = codec v' -> v' = v).
+Proof. exact @load_session_canonical. Qed.
+Print Assumptions C02_load_session_canonical.
+
+Theorem C02_monitor_accepts_cookie_model : forall gs m pk lines,
+  forallb genuine_ok gs = true -> nodup_texts gs = true ->
+  let r := judge_cookie m gs pk lines (model_store m gs pk lines) in
+  r = 0 \/ (r = 101 /\ m_strict m = false) \/ (r = 102 /\ m_nocrlf m = false).
+Proof. exact judge_cookie_model_ok. Qed.
+Print Assumptions C02_monitor_accepts_cookie_model.
